@@ -196,13 +196,15 @@ R.contract("Node.receive_dpr", params={"self": "Node", "conn": "PeerConnection",
                     ("reason-recorded", "implies(not is_none(old(peer_of(self, conn))), "
                                         "some(old(peer_of(self, conn))).disconnect_reason == %d)" % R_DPR)] + _WIN_ENS,
            ghost_modifies=["conn._write_msg_queue.g_put"],
-           modifies=_ANS_MODS + ["conn.state", "*Peer.disconnect_reason"], props=["C07", "C12"])
+           modifies=_ANS_MODS + ["conn.state", "*Peer.disconnect_reason"], props=["C07", "C12", "C09"])
 R.contract("Node.receive_dwa", params={"self": "Node", "conn": "PeerConnection", "message": "Message"},
            ensures=[("ready-again", "conn.state == ite(old(conn.state) == %d, %d, old(conn.state))" % (READY_WAITING_DWA, READY)),
                     ("timer-cleared", "conn._last_dwr == 0"), ("nothing-sent", "nothing_sent(conn)")],
            modifies=["conn.state", "conn._last_dwr"], props=["C07", "C11", "C12"])
 R.contract("Node.receive_dpa", params={"self": "Node", "conn": "PeerConnection", "message": "Message"},
-           ensures=[("closing", "conn.state == %d" % CLOSING), ("nothing-sent", "nothing_sent(conn)")],
+           ensures=[("closing", "conn.state == %d" % CLOSING), ("nothing-sent", "nothing_sent(conn)"),
+                    ("the-io-loop-is-woken-to-close-the-connection", "conn.g_attn == old(conn.g_attn) + 1")],
+           ghost_modifies=["conn.g_attn"],
            modifies=["conn.state"], props=["C07", "C18"])
 
 # ---- C08: request dispatch ---------------------------------------------------------------------------------
@@ -243,7 +245,7 @@ def _app_registered(ex, st, node, tok):
 R.macro("realm_of", ["m"], "utf8dec(some(m.destination_realm))")
 
 R.contract("Node._receive_app_request", params={"self": "Node", "conn": "PeerConnection", "message": "Message"},
-           ghost={"o": "Opt[bytes]", "w": "Any:routekey"},
+           ghost={"o": "Opt[bytes]", "w": "Any:routekey", "h1": "str"},
            requires=_NODE_READY + _WIN_REQ + [
                ("realm-attr-set", "implies(hasattr(message, 'destination_realm'), has(message, 'destination_realm') and "
                                   "not is_none(message.destination_realm) and valid_utf8(some(message.destination_realm)))")],
@@ -262,6 +264,10 @@ R.contract("Node._receive_app_request", params={"self": "Node", "conn": "PeerCon
                      "delivered_to(self, items(self.g_dlv_app)[old(len(self.g_dlv_app))], message) and nothing_sent(conn) and "
                      "app_matched_before(self, conn, message, items(self.g_dlv_app)[old(len(self.g_dlv_app))]))"),
                     ("answered-or-delivered", "no_delivery(self) == (len(out(conn)) == old(len(out(conn))) + 1)"),
+                    ("a-delivered-request-is-pending-from-the-connection-it-arrived-on",
+                     "implies(not no_delivery(self), pwa_has(self, conn.host_identity, message.header.hop_by_hop_identifier))"),
+                    ("no-other-host-gets-a-pending-entry",
+                     "implies(h1 != conn.host_identity, (h1 in self._peer_waiting_answer) == old(h1 in self._peer_waiting_answer))"),
                     ("node-answer-releases-the-origin-record", "implies(len(out(conn)) == old(len(out(conn))) + 1, "
                                                                "not (mkey(message) in self._origin_waiting_answer))"),
                     ("windows-stay-well-formed", "win_ok(self, o)")],
@@ -270,7 +276,7 @@ R.contract("Node._receive_app_request", params={"self": "Node", "conn": "PeerCon
            ghost_modifies=["conn._write_msg_queue.g_put", "self.g_dlv_app", "self.g_dlv_msg"],
            modifies=_ANS_MODS + ["dict:self._peer_waiting_answer",
                                  "dict:self._peer_waiting_answer[conn.host_identity] if conn.host_identity in self._peer_waiting_answer"],
-           props=["C08", "C07"])
+           props=["C08", "C07", "C09"])
 R.loop("Node._receive_app_request", 0,
        invariants=[("none-chosen-yet", "is_none(receiving_app)"),
                    ("visited-do-not-match", "implies(w in done, not app_matches(self, conn, realm_name, w, app_id))"),
@@ -345,12 +351,17 @@ R.contract("Node._receive_message", params={"self": "Node", "conn": "PeerConnect
                     ("duplicate-is-rejected-by-the-node",
                      "implies(old(dup_cond(self, msg)), no_delivery(self) and len(out(conn)) == old(len(out(conn))) + 1 and "
                      "(new_out(conn).result_code == 5012 or new_out(conn).result_code == 5005))"),
+                    ("the-node-answers-application-requests-only-with-the-specified-errors",
+                     "implies(len(out(conn)) == old(len(out(conn))) + 1 and msg.header.command_code != 257 and "
+                     "msg.header.command_code != 280 and msg.header.command_code != 282, "
+                     "new_out(conn).result_code == 3003 or new_out(conn).result_code == 3007 or "
+                     "new_out(conn).result_code == 5005 or new_out(conn).result_code == 5012)"),
                     ("base-protocol-never-reaches-applications",
                      "implies(msg.header.command_code == 257 or msg.header.command_code == 280 or "
                      "msg.header.command_code == 282, no_delivery(self))")],
            raises=[],
            ghost_modifies=["conn._write_msg_queue.g_put", "self.g_dlv_app", "self.g_dlv_msg", "self.g_ans_app", "self.g_ans_msg",
-                           "conn.g_close_calls", "conn.g_close_reason"],
+                           "conn.g_close_calls", "conn.g_close_reason", "*PeerConnection.g_attn"],
            modifies=["dict:self._sent_answers", "dict:self._origin_waiting_answer", "*deque:int", "dict:self._peer_waiting_answer",
                      "dict:self._app_waiting_answer", "dict:self.socket_peers", "*list:Peer",
                      "*dict:Dict[int,float]", "*PeerCounters.cer", "*PeerCounters.cea", "*PeerCounters.dwr", "*PeerCounters.dwa",
